@@ -15,11 +15,25 @@ PROPS = {
         "assumptions": ["NoopNormalizer (identity) is the normalizer"],
     },
     "C14": {
-        "suites": [("entity", 3000, 60000)],
+        "suites": [("entity", 3000, 60000), ("ser", 1200, 6000)],
         "show_constants": True,
-        "proved_scope": "character level: CDATA sections of serialize_cdata concatenate to the input and contain no ]]>; unescaped_gt text decodes to the input and contains no ]]>",
-        "not_proved": "tree level option independence; Pretty placement rules",
+        "proved_scope": "character level: CDATA sections of serialize_cdata concatenate to the input and contain no ]]>; unescaped_gt text decodes to the input and contains no ]]>. Pretty (all trees, all parameter sets, arbitrary escaping functions): erasing the indentation / newline fields of the pretty token stream gives the plain token stream, the pretty string is the plain tokens plus per token 2*indentation spaces in front and at most one LF behind (C14_pretty_content, _conv, C14_pretty_string). Stack machine of pretty.rs (all stacks): newline only outside mixed / suppressed content and outside xml:space=preserve scope, no whitespace inside mixed / suppressed content at any depth, what StartTagClose pushes; inside a preserve scope the indentation is frozen at the depth of the preserve element (C14_pretty_where_frozen), zero only when that element is outermost (C14_pretty_where_partial); the full-strength rule is refuted by a closed witness (C14_pretty_where_false)",
+        "not_proved": "C14_options (reparse of the output under every parameter set = C01_main, needs the tokenizer contract and the builder); C14_decl (prolog well-formedness) only by the harness oracle; the link between the Pretty stack and the ancestor chain of the tree (so that C14_pretty_where_* speak about elements rather than stack entries) is checked by the ser suite's whitespace-diff oracle, not proved",
         "modelled": EXTERNAL,
         "assumptions": ["NoopNormalizer (identity) is the normalizer"],
+    },
+    "C16": {
+        "suites": [("ser", 1200, 6000)],
+        "proved_scope": "for every tree, start node and parameter set, for arbitrary escaping functions: concatenated tokens (space-prefixed when flagged) = string serialisation, both directions, and tokens panics exactly when the string entry point returns an error (C16_tokens, _conv, _fail); pretty tokens with indentation/newline applied = pretty string (C16_pretty, _conv); serialize_xml_write writes exactly what serialize_xml_string returns and they fail together, Xot::write / to_string are the default-parameter instances (C16_write, _write_default, _to_string); event stream: per element exactly start-tag-open, inherited declarations (top element only, = in-scope bindings it does not declare), own declarations and attributes in view order, start-tag-close, children in order, end-tag (C16_events_element, _inherited, _children), one event per text/comment/PI and none for document/attribute/namespace nodes (C16_events_leaf), every event tagged with a normal node of the subtree and one of that node's own events (C16_events_tagged), opening events = normal non-document nodes in pre-order (C16_events_order)",
+        "not_proved": "nothing of the property statement inside the model; the Write entry point is modelled as a byte accumulator (io::Error of the writer is outside the model: Vec<u8> never fails)",
+        "modelled": EXTERNAL,
+        "assumptions": ["NoopNormalizer (identity) is the normalizer", "the std::io::Write target does not fail"],
+    },
+    "C10": {
+        "suites": [("ser", 1200, 6000)],
+        "proved_scope": "first sentence of the property, at the level of the FullnameSerializer: the top frame of the stack is the nearest-declaration-wins scope of the declaration frames pushed (C10_stack_invariant; kept by push under unique prefixes per element, undone by pop: C10_stack_push, _pop; base case for every tree since namespaces_in_scope yields each prefix once: C10_stack_base, _base_inScope); the prefix element_prefix / attribute_prefix choose, looked up by XML-Namespaces rules in the scope of the same declarations, gives back the name's namespace (C10_sound_attribute full strength; C10_sound_partial for elements under the guard 'not (no-namespace name while a default namespace is in scope)'; the unguarded statement is refuted: C10_sound_false); an error is returned exactly when no usable prefix is in scope (C10_error_element, _attribute)",
+        "not_proved": "that during the traversal the stack frames are exactly the declaration lists of the open elements (push at StartTagOpen / pop at EndTag are modelled and exercised by the ser suite, the fold invariant over genOutputs is not proved); that declarations of the XML namespace are not written (render_output suppresses them: defect C10:prefix-bound-to-xml-namespace-written-without-declaration) and that URIs are written unescaped (defect C10:namespace-uri-written-unescaped) are outside the theorem, found by the oracle; C10_repair / C10_iter (create_missing_prefixes) belong to the scope/edit suites",
+        "modelled": EXTERNAL,
+        "assumptions": ["no prefix is declared twice on one element (NodeMap keys are unique: C11)"],
     },
 }
